@@ -46,6 +46,7 @@ def analyse(G, spec, entry_held=()):
     IN[G.entry].add(frozenset(entry_held))
     work = [G.entry]
     raii = {}        # local var -> lock name
+    raii_line = {}   # lock name -> declaration line (to release RAII locks when unwinding out of their try block)
     pending_try = {}  # eid -> lock name (try-acquire whose result is branched on later)
     maybe = {}       # raii var declared with try_to_lock -> lock name
     steps = 0
@@ -64,6 +65,7 @@ def analyse(G, spec, entry_held=()):
                     if RAII_RE.search(t):
                         name = 'raii:' + v['var']
                         raii[v['var']] = name
+                        raii_line[name] = e.get('line') or 0
                         init = json.dumps(v.get('init'))
                         if 'try_to_lock' in init: maybe[v['var']] = name; held.add(name + '?')
                         elif 'defer_lock' in init: pass
@@ -99,7 +101,17 @@ def analyse(G, spec, entry_held=()):
                     outs.append((m, frozenset(h2)))
             else:
                 for m, lab in G.succ.get(n, []):
-                    outs.append((m, frozenset(held)))
+                    if lab == 'exc':
+                        # unwinding to a handler destroys the RAII locks declared inside the try block
+                        ln = e.get('line') or 0
+                        inner = [tr for tr in G.f.get('try', []) if tr['try_begin'] <= ln <= tr['try_end']]
+                        h2 = set(st)     # state *before* the throwing call took effect
+                        if inner:
+                            tr = max(inner, key=lambda x: x['try_begin'])
+                            h2 = {l for l in h2 if not (l.rstrip('?') in raii_line and tr['try_begin'] <= raii_line[l.rstrip('?')] <= tr['try_end'])}
+                        outs.append((m, frozenset(h2)))
+                    else:
+                        outs.append((m, frozenset(held)))
             for m, s2 in outs:
                 if s2 not in IN[m]:
                     IN[m].add(s2); work.append(m)
@@ -119,3 +131,9 @@ def held_never(IN, node, lock):
 def any_held(IN, node):
     ss = IN.get(node) or []
     return any(s for s in ss)
+
+
+def any_held_all(IN, node):
+    """some lock is held on every path reaching node"""
+    ss = IN.get(node)
+    return bool(ss) and all(any(not l.endswith('?') for l in s) for s in ss)
